@@ -303,6 +303,55 @@ Definition sample_metropolis_2d (PDF : T -> T -> T) (s1 s2 : T) (sample thin bur
       end
   | _ => Exit        (* "Domain must be a vector of size 0 or 4" *)
   end.
+
+(** ** A history of sampler calls on ONE generator (the interleavings of the property's quantifier).
+    The calls are made one after the other, each on the stream its predecessor left behind.  No sampler of
+    Statistics.cpp has state of its own (no static, no member, no global): a call is a function of its arguments
+    and of the generator, so a history is the fold of [run_call] over the stream and nothing else is threaded. *)
+Inductive call : Type :=
+| CUniform (a b : T)
+| CGauss (mean sd : T)
+| CPoisson (lam : T)
+| CPoissonV (lams : list T)
+| CInvT (cdf : T -> T) (a b : T)
+| CRej (PDF : T -> T) (xMin xMax yMax : T)
+| CRej2 (PDF : T -> T -> T) (xMin xMax yMin yMax zMax : T)
+| CMetro (PDF : T -> T) (sigma : T) (sample thin burn : Z) (domain : list T)
+| CMetro2 (PDF : T -> T -> T) (s1 s2 : T) (sample thin burn : Z) (domain : list T).
+Inductive answer : Type :=
+| AReal (x : T)
+| ACount (k : Z)
+| ACounts (ks : list Z)
+| APoint (p : T * T)
+| AReals (l : list T)
+| APoints (l : list (T * T)).
+Definition ans {A : Type} (f : A -> answer) (x : res (A * list T)) : res (answer * list T) :=
+  match x with Ok (a, r) => Ok (f a, r) | Exit => Exit | OOB => OOB | Fuel => Fuel end.
+Definition run_call (c : call) (us : list T) : res (answer * list T) :=
+  match c with
+  | CUniform a b => ans AReal (sample_uniform a b us)
+  | CGauss mean sd => ans AReal (sample_gauss mean sd us)
+  | CPoisson lam => ans ACount (sample_poisson lam us)
+  | CPoissonV lams => ans ACounts (sample_poisson_list lams us)
+  | CInvT cdf a b => ans AReal (inverse_transform cdf a b us)
+  | CRej PDF xMin xMax yMax => ans AReal (rejection_sampling PDF xMin xMax yMax us)
+  | CRej2 PDF xMin xMax yMin yMax zMax => ans APoint (rejection_sampling_2d PDF xMin xMax yMin yMax zMax us)
+  | CMetro PDF sigma sample thin burn domain => ans AReals (sample_metropolis PDF sigma sample thin burn domain us)
+  | CMetro2 PDF s1 s2 sample thin burn domain => ans APoints (sample_metropolis_2d PDF s1 s2 sample thin burn domain us)
+  end.
+Fixpoint run_calls (cs : list call) (us : list T) : res (list answer * list T) :=
+  match cs with
+  | [] => Ok ([], us)
+  | c :: rest =>
+      match run_call c us with
+      | Ok (a, r) =>
+          match run_calls rest r with
+          | Ok (l, r') => Ok (a :: l, r')
+          | Exit => Exit | OOB => OOB | Fuel => Fuel
+          end
+      | Exit => Exit | OOB => OOB | Fuel => Fuel
+      end
+  end.
 End Model.
 
 (** * User functions that draw random numbers themselves (re-entrant / nested use).
